@@ -236,19 +236,6 @@ theorem C03_known_consistent (known : List Rec) (r : Rec)
 
 /-! ## the property over histories -/
 
-theorem RespSpec.candidates_clear (s : Svc) (q : Question) :
-    RespSpec.candidates lower ettl s.clearMemo q = RespSpec.candidates lower ettl s q := rfl
-
-theorem RespSpec.preds_clear (svcs : List Svc) (qs : List Question) (known : List Rec) :
-    (∀ a, RespSpec.soundAnswer lower ettl (svcs.map Svc.clearMemo) qs known a = RespSpec.soundAnswer lower ettl svcs qs known a)
-    ∧ (∀ off, RespSpec.complete lower ettl (svcs.map Svc.clearMemo) qs known off = RespSpec.complete lower ettl svcs qs known off)
-    ∧ (∀ p, RespSpec.additionalsOk lower ettl (svcs.map Svc.clearMemo) p = RespSpec.additionalsOk lower ettl svcs p) := by
-  refine ⟨fun a => ?_, fun off => ?_, fun p => ?_⟩
-  · simp only [RespSpec.soundAnswer, List.any_map, Function.comp_def, RespSpec.candidates_clear]
-  · simp only [RespSpec.complete, List.all_map, Function.comp_def, RespSpec.candidates_clear]
-  · simp only [RespSpec.additionalsOk, List.any_map, Function.comp_def]
-    rfl
-
 /-- **C03.**  For every history of register / update / unregister / attribute-write / query operations after
 which no registered object has a pending (un-`update`d) write, and every query: the reply is computed without
 an exception; every answer is exactly a record of a *currently* registered service (per the abstract map
